@@ -24,8 +24,8 @@ Verdict(e, menu) ==
                all == [r \in 1..NR |-> J(e.all[r])]
                cls == <<"StStep", e.op, e.form, OverflowOf(td), RoundingOf(td),
                         IF Signalled(e.op, ta, ra, tb, rb, td) THEN "overflow" ELSE "in_range",
-                        IF DivOperandNarrowed(e.op, ta, ra, tb, rb) THEN "div_operand_narrowed"
-                        ELSE IF DivBiasOverflows(e.op, ta, ra, tb, rb) THEN "div_bias_overflows"
+                        \* (the class "div_operand_narrowed" disappeared with the fix of the elastic / and % operand cast)
+                        IF DivBiasOverflows(e.op, ta, ra, tb, rb) THEN "div_bias_overflows"
                         ELSE IF NarrowingBiasUnrepresentable(e.op, ta, ra, tb, rb, td) THEN "narrowing_bias_unrepresentable"
                         ELSE IF ShrLeavesRange(e.op, ta, ra, tb, rb, td) THEN "shr_negative_leaves_range"
                         ELSE "plain">>
